@@ -1,7 +1,9 @@
 import QR.Model.Svg
 import QR.Spec.Svg
+import QR.Proofs.Svg
 /-
-C13 - SVG factories.  (General theorems under construction.)
+C13 - SVG factories: each factory draws exactly one correctly placed shape per dark module and none for light modules,
+each shape centred on its module's cell and not larger than the cell.
 -/
 namespace QR.Props
 open QR QR.Model
@@ -16,5 +18,55 @@ theorem C13_background (f : SvgFactory) (md ed : SvgDrawer) (M : Mods) (w b box 
 theorem C13_size (f : SvgFactory) (md ed : SvgDrawer) (M : Mods) (w b box : Nat) :
     (svgDoc f md ed M w b box).pixelSize = (w + 2 * b) * box := by
   simp [svgDoc, pixelSize, Nat.mul_comm b 2]
+
+/-- **C13 (shapes)**: for every factory (fragment / image / fill / path / pathFill), every module drawer and eye drawer
+    (square or circle) whose size ratio `num/den` is at most 1, every matrix, width, border and box size: the emitted
+    shapes - each reduced by `blobOf` to its centre and full extent - are exactly one per dark module in row-major order
+    and none for light modules (`Spec.shapesOK`: same length as `Spec.darkCells`, the k-th shape belongs to the k-th
+    dark module), each centred on its module's cell `((c+border)*box + box/2, (r+border)*box + box/2)` and not larger
+    than the cell.  The hypothesis `num ≤ den` is necessary (see the counterexample below); `0 < num`, `0 < den` are not. -/
+theorem C13_shapes (f : SvgFactory) (md ed : SvgDrawer) (M : Mods) (n border box : Nat)
+    (hm : md.num ≤ md.den) (he : ed.num ≤ ed.den) :
+    Spec.shapesOK M n border box ((svgDoc f md ed M n border box).shapes.map Proofs.Svg.blobOf) = true :=
+  Proofs.Svg.svg_shapesOK f md ed M n border box hm he
+
+/-- the number of emitted shapes is the number of dark modules (no hypothesis on the drawers) -/
+theorem C13_count (f : SvgFactory) (md ed : SvgDrawer) (M : Mods) (n border box : Nat) :
+    (svgDoc f md ed M n border box).shapes.length = (Spec.darkCells M n).length :=
+  Proofs.Svg.svg_count f md ed M n border box
+
+/-- `Spec.darkCells` is what it should be: exactly the dark modules of the `n x n` square, each once, in strictly
+    increasing row-major order -/
+theorem C13_darkCells (M : Mods) (n : Nat) :
+    (∀ r c, (r, c) ∈ Spec.darkCells M n ↔ r < n ∧ c < n ∧ (M.getD r []).getD c false = true) ∧
+    (Spec.darkCells M n).Pairwise fun a b => a.1 < b.1 ∨ (a.1 = b.1 ∧ a.2 < b.2) :=
+  ⟨Proofs.Svg.mem_darkCells M n, Proofs.Svg.darkCells_sorted M n⟩
+
+/-- unfolded: the k-th shape is the shape drawn for the k-th dark module `(r, c)` in row-major order - by the eye drawer
+    iff `isEye n r c`, else by the module drawer, at that module's pixel box - and it is centred on that module's cell
+    and fits the cell -/
+theorem C13_kth (f : SvgFactory) (md ed : SvgDrawer) (M : Mods) (n border box : Nat)
+    (hm : md.num ≤ md.den) (he : ed.num ≤ ed.den) (k : Nat) (hk : k < (Spec.darkCells M n).length) :
+    let rc := (Spec.darkCells M n)[k]
+    let d := if isEye n rc.1 rc.2 then ed else md
+    (svgDoc f md ed M n border box).shapes[k]? =
+        some (2 * d.den, drawShape f.isPath d box ((rc.2 + border) * box) ((rc.1 + border) * box)) ∧
+    (∀ p, (svgDoc f md ed M n border box).shapes[k]? = some p →
+        (Proofs.Svg.blobOf p).centredOn border box rc.1 rc.2 = true ∧ (Proofs.Svg.blobOf p).fitsCell box = true) :=
+  Proofs.Svg.svg_kth f md ed M n border box hm he k hk
+
+/-- non-vacuity: a 9x9 matrix with dark modules inside and outside the eyes, gapped-circle (4/5) module drawer, square
+    eye drawer, path factory: 6 shapes, and the spec predicate really evaluates to `true` -/
+example :
+    let M : Mods := (List.range 9).map fun r => (List.range 9).map fun c => r == c && r % 2 == 0 || (r == 7 && c == 8)
+    let doc := svgDoc .path ⟨.circle, 4, 5⟩ ⟨.square, 1, 1⟩ M 9 4 10
+    doc.shapes.length = 6 ∧
+    doc.shapes[0]? = some (2, .pathSquare 80 80 100 100) ∧        -- (0,0): eye, full square, 4.0mm .. 5.0mm
+    doc.shapes[4]? = some (10, .pathCircle 1210 1150 1290 30) ∧   -- (7,8): not an eye, circle of diameter 8 px
+    Spec.shapesOK M 9 4 10 (doc.shapes.map Proofs.Svg.blobOf) = true := by decide
+
+/-- the hypothesis `num ≤ den` cannot be dropped: a ratio of 2 gives an uncentred, too large shape -/
+example : Spec.shapesOK [[true]] 1 0 1
+    ((svgDoc .image ⟨.square, 2, 1⟩ ⟨.square, 2, 1⟩ [[true]] 1 0 1).shapes.map Proofs.Svg.blobOf) = false := by decide
 
 end QR.Props
